@@ -86,6 +86,9 @@ class Materializer:
 
     def mat(self, v):
         v = simplify_native(v)
+        if type(v).__name__ == "WeakRef":
+            import weakref
+            return weakref.ref(self.mat(v.target))
         if hasattr(v, "materialize"):
             return v.materialize()
         if isinstance(v, Rope):
@@ -173,6 +176,11 @@ class Materializer:
             self._register(ref.oid, v)
             self._fill(ref.oid, v, ctx)
             return ref
+        import weakref as _wr
+        if isinstance(v, _wr.ref):
+            from .models import WeakRef
+            t = v()
+            return WeakRef(self.lift(t, ctx)) if t is not None else WeakRef(None)
         if isinstance(v, ecdsa.VerifyingKey):
             return ModelObj("VerifyingKey", pt=U.SymPt(v.pubkey.point))
         if isinstance(v, ecdsa.SigningKey):
@@ -286,6 +294,7 @@ def replay_contract(contract, model, stubs, clause=None):
         lifted = M.lift_all(ctx, val)
         out = Outcome(kind, value=lifted, exc_cls=exc)
         failed = []
+        ctx.post_mode = True
         for name, formula in contract.post(ctx, I, out):
             v = simplify_native(formula)
             if is_sym(v):
@@ -293,6 +302,7 @@ def replay_contract(contract, model, stubs, clause=None):
                 v = True if z3.is_true(v) else (False if z3.is_false(v) else None)
             if v is False:
                 failed.append(name)
+        ctx.post_mode = False
         allowed = set(contract.modifies(ctx, I)) if hasattr(contract, "modifies") else set()
         bad = heap_diff(snap, ctx.heap) - allowed
         if bad:
